@@ -2,10 +2,22 @@
 import numpy as np
 import gen as G
 import tdgen as T
+import emit as E
+import sweeprec as SR
 
 PROP = 'C09'
-COQ_IMPORTS = ['PT.Base.Scalar']
-FORM = 'see coq(): schedule palindrome / trace refinement where the model is available'
+COQ_IMPORTS = SR.COQ_IMPORTS
+COQ_PREAMBLE = SR.PREAMBLE
+SHARD = 4
+FORM = (SR.FORM_TEXT % 'integrate_local_singlesite / integrate_local_twosite') + \
+       '; the recorded solver-call sequence is additionally required (inside Coq) to equal numsteps copies of sched1 L / sched2 L and its own reverse'
+TRUSTED = SR.TRUSTED
+PARTIAL = ('proved (Properties/C09.v): the scheduling / symmetry core only -- for all L and numsteps the solver calls emitted by the model are numsteps copies of '
+           'K0(1/2) S0(-1/2) ... K_{L-1}(1) ... S0(-1/2) K0(1/2) (two-site analogue), this list is its own reverse, the times passed for -dt are the negated '
+           'times, and adjacent opposite local flows cancel for exactly invertible local solvers. NOT proved: exactness on a complete manifold (a statement '
+           'about the matrix exponential, of which the model has no definition) and reversibility at the level of the dense state (needs gauge covariance of '
+           'the local flows under the QR gauges); both are only searched by prop() against scipy.linalg.expm')
+ASSUMPTIONS = SR.ASSUMPTIONS
 RULE = ('exactness: complete manifolds (maximal bond dimensions of a charge sector, or no charges), L in 1..5, d in 2..3, Krylov dimension >= '
         'local dimension, real / imaginary / complex dt with |dt|*||H|| <= ~1, 1..3 steps, both integrators, against scipy.linalg.expm; '
         'reversibility: single-site, any bond profile, complex dt, n steps forward then n steps with -dt, result times the norm reported by '
@@ -28,6 +40,7 @@ def cases(rng, tier):
         out.append({'what': what, 'kind': kind, 'model': model, 'L': L, 'seed': rng.getrandbits(30),
                     'dt': [rng.choice([0.0, 0.05, -0.1, 0.2]), rng.choice([0.0, 0.1, -0.05, 0.3])], 'steps': rng.choice([1, 1, 2, 3]),
                     'Dmax': rng.choice([1, 2, 3]), 'sectors': rng.random() < 0.7})
+    SR.mark_replay(out, {'quick': 24, 'thorough': 120, 'search': 0}[tier], 'steps')
     return out
 
 
@@ -54,6 +67,7 @@ def impl(case):
     hn = float(np.linalg.norm(Hd, 2))
     if abs(dt) * hn * case['steps'] > 1.5:
         dt = dt * 1.5 / (abs(dt) * hn * case['steps'])
+    import pytenet.evolution as EV
     try:
         if case['what'] == 'exact':
             info = {}
@@ -64,26 +78,29 @@ def impl(case):
                 return {'skip': 'zero state'}
             numiter = int(max(a.size for a in psi.A) * (len(H.qd) if case['kind'] == 'two' else 1)) + 2
             numiter = min(numiter, 200)
+            numeric = SR.numeric_ok(case, H, psi)
             if case['kind'] == 'single':
-                ret = ptn.integrate_local_singlesite(H, psi, dt, case['steps'], numiter_lanczos=numiter)
+                ret, run = SR.run_recorded(EV, ptn.integrate_local_singlesite, H, psi, dt, numiter, numeric, dt, case['steps'], numiter_lanczos=numiter)
             else:
-                ret = ptn.integrate_local_twosite(H, psi, dt, case['steps'], numiter_lanczos=numiter, tol_split=0)
+                ret, run = SR.run_recorded(EV, ptn.integrate_local_twosite, H, psi, dt, numiter, numeric, dt, case['steps'], numiter_lanczos=numiter, tol_split=0)
             v1 = G.mps_dense(psi.A)
             ref = expm(-dt * case['steps'] * Hd) @ (v0 / n0)
             return {'err': float(np.linalg.norm(v1 - ref)), 'ret': float(np.real(ret)), 'norm0': n0, 'dims': [int(x) for x in psi.bond_dims],
-                    'refnorm': float(np.linalg.norm(ref)), 'mixed': [bool(x) for x in info.get('mixed', [])]}
+                    'refnorm': float(np.linalg.norm(ref)), 'mixed': [bool(x) for x in info.get('mixed', [])],
+                    'runs': [run], 'H': SR.enc_mpo(H, numeric)}
         psi = T.state(H, rs, Dmax=case['Dmax'])
         v0 = G.mps_dense(psi.A)
         n0 = float(np.linalg.norm(v0))
         if n0 < 1e-10:
             return {'skip': 'zero state'}
         numiter = int(max(a.size for a in psi.A)) + 2
-        r1 = ptn.integrate_local_singlesite(H, psi, dt, case['steps'], numiter_lanczos=numiter)
+        numeric = SR.numeric_ok(case, H, psi)
+        r1, run1 = SR.run_recorded(EV, ptn.integrate_local_singlesite, H, psi, dt, numiter, numeric, dt, case['steps'], numiter_lanczos=numiter)
         mid = float(np.linalg.norm(G.mps_dense(psi.A)))
-        r2 = ptn.integrate_local_singlesite(H, psi, -dt, case['steps'], numiter_lanczos=numiter)
+        r2, run2 = SR.run_recorded(EV, ptn.integrate_local_singlesite, H, psi, -dt, numiter, numeric, -dt, case['steps'], numiter_lanczos=numiter)
         v2 = G.mps_dense(psi.A)
         return {'err': float(np.linalg.norm(r2 * v2 - v0 / n0)), 'ret': float(np.real(r1)), 'ret2': float(np.real(r2)), 'norm0': n0, 'mid': mid,
-                'imag_dt': bool(dt.real == 0), 'dims': [int(x) for x in psi.bond_dims]}
+                'imag_dt': bool(dt.real == 0), 'dims': [int(x) for x in psi.bond_dims], 'runs': [run1, run2], 'H': SR.enc_mpo(H, numeric)}
     except Exception as e:
         import traceback
         tb = traceback.extract_tb(e.__traceback__)[-1]
@@ -124,14 +141,16 @@ def finding_key(case, r, msgs):
 
 
 def coq(case, r):
-    return None
+    if 'skip' in r or 'error' in r:
+        return None
+    return ' && '.join('(%s)' % SR.term_tdvp(case['kind'] == 'two', r['H'], case['steps'], run) for run in r['runs'])
 
 
 def klass(case, r):
     if 'skip' in r or 'error' in r:
         return case['what'] + '/' + ('skip' if 'skip' in r else 'error')
     dtk = 'imag' if case['dt'][0] == 0 else ('real' if case['dt'][1] == 0 else 'complex')
-    return '%s/%s/%s/L%d/%s' % (case['what'], case['kind'], case['model'], case['L'], dtk)
+    return '%s/%s/%s/L%d/%s%s' % (case['what'], case['kind'], case['model'], case['L'], dtk, '/replay' if r['runs'][0]['numeric'] else '')
 
 
 def nontrivial(case, r):
